@@ -960,9 +960,13 @@ class Analysis:
         if any(self.cfg.dominates(b, p) for p in preds) or any(p not in self.ver_out for p in preds):
             return None
         ins = [self.var_term(self.ver_out[p], var) for p in preds]
-        if not all(t[0] == "agg" and t[1] == "adt" for t in ins):
+
+        def residual(t):
+            # `?` on None / Err(e): the function's own return value is None / Err(..), never Some / Ok
+            return t[0] == "call" and t[1] == "core::ops::try_trait::FromResidual::from_residual" and variant in ("Some", "Ok")
+        if not all((t[0] == "agg" and t[1] == "adt") or residual(t) for t in ins):
             return None
-        same = {t for t in ins if t[2][1] == variant}
+        same = {t for t in ins if t[0] == "agg" and t[2][1] == variant}
         if len(same) == 1:
             return next(iter(same))
         return None
@@ -1288,6 +1292,18 @@ class Analysis:
                 newv = raw_args[1] if len(raw_args) > 1 else ("default",)
                 swap_store = {"k": "store", "b": b, "i": i, "region": dname, "addr": daddr, "val": newv,
                               "span": blk["tspan"], "vers": dict(cur), "via": key}
+        if key in E.PTR_WRITE and len(t["args"]) == 2 and t["args"][0]["k"] in ("copy", "move"):
+            # p.write(v) / ptr::write(p, v): a store of v through p
+            tp = t["args"][0]["place"]
+            dplace = {"local": tp["local"], "proj": list(tp["proj"]) + [{"k": "deref"}]}
+            try:
+                dmode, dname, _ = self.walk_place(dplace)
+                daddr = self.place_term(dplace, cur, want_addr=True)
+            except Exception:
+                dmode = None
+            if dmode == "mem":
+                swap_store = {"k": "store", "b": b, "i": i, "region": dname, "addr": daddr, "val": raw_args[1],
+                              "span": blk["tspan"], "vers": dict(cur), "via": key}
         ev = {"k": "call", "b": b, "i": i, "key": key, "fn": fn, "args": raw_args, "pure": pure,
               "res": res, "span": blk["tspan"], "func_term": fterm, "vers": dict(cur),
               "unsafe": bool(fn and fn.get("unsafe")), "diverges": t["target"] is None}
@@ -1382,6 +1398,9 @@ def mk_un(op, a):
     if op == "Not" and a[0] == "un" and a[1] == "Not":
         return a[2]
     if op == "PtrMetadata":
+        # the length of `&*vec` / `vec.as_slice()` is the length of the vector: one canonical spelling
+        while a[0] == "call" and a[1] in E.DEREF_KEYS and a[3]:
+            a = a[3][0]
         return ("len", a)
     return ("un", op, a)
 
